@@ -283,6 +283,17 @@ def r4(ctx) -> None:
         g = next((a for a in lib.ancestors(s, f.node) if isinstance(a, ast.If)), None)
         ctx.ob("C08-R4", f"add_model_weight/{kind}-interval-optional", g is not None and norm(g.test) == f"model_weight.{kind}_interval is not None", f, s,
                f"without {kind} interval the whole {kind} axis is weighted")
+    # the slice dict is rebuilt for every model weight
+    wl = next((n_ for n_ in lib.nodes(f, ast.For) if norm(n_.iter) == "model_weights"), None)
+    idx_inits = [d for d in fl.defs_of("idx") if d.kind == "assign"]
+    ok_reset = wl is not None and len(idx_inits) >= 1 and all(isinstance(d.value, ast.Dict) and not d.value.keys and lib.is_inside(d.stmt, wl) and d.stmt in wl.body
+                                                              for d in idx_inits)
+    if ok_reset:
+        first_cond = min((s_.lineno for _, _, s_ in pairs), default=10**9)
+        ok_reset = all(d.stmt.lineno < first_cond for d in idx_inits)
+    ctx.ob("C08-R4", "add_model_weight/slices-reset-per-weight", ok_reset, f, idx_inits[0].stmt if idx_inits else (wl or f.node),
+           "the dict of slices is rebuilt for every model weight: a weight that leaves an interval unset must act on the whole axis, "
+           "not inherit the slice of the previous weight")
     axes = {d.var: norm(d.value) for v in ("model_axis", "global_axis") for d in fl.defs_of(v) if d.kind == "assign"}
     ctx.ob("C08-R4", "add_model_weight/axes-of-this-dataset", axes.get("model_axis") == f"self._model_axes[{lab}]" and axes.get("global_axis") == f"self._global_axes[{lab}]",
            f, f.node, "the axes are those of the dataset being weighted", construct=str(axes))
